@@ -31,17 +31,25 @@ BODY = "\nint\tmain(void)\n{\n\treturn (0);\n}\n"
 
 
 def pattern_from_source(path="/repo/norminette/rules/check_header.py"):
+    """the header pattern as written in the current source: the one string constant of check_header.py that is a
+    regular expression for the By: / Created: / Updated: lines and is not commented out -- wherever it sits
+    (function body, module level, class attribute), so that moving it is not an engine gap"""
     tree = ast.parse(open(path).read())
-    pat, flags = None, 0
+    cands, flags = [], 0
     for n in ast.walk(tree):
-        if isinstance(n, ast.Assign) and isinstance(n.targets[0], ast.Name) and n.targets[0].id == "val_no_check_nl":
-            pat = n.value.value
-        if isinstance(n, ast.Call) and isinstance(n.func, ast.Attribute) and n.func.attr == "compile":
-            for a in n.args[1:]:
-                if isinstance(a, ast.Attribute) and a.attr == "DOTALL":
-                    flags |= re.DOTALL
-    if pat is None:
-        raise core.EngineGap("header pattern not found in check_header.py")
+        if isinstance(n, ast.Constant) and isinstance(n.value, str) and "By: " in n.value and "Updated: " in n.value:
+            cands.append(n.value)
+        if isinstance(n, ast.Call) and isinstance(n.func, ast.Attribute) and n.func.attr in ("compile", "search", "match", "fullmatch"):
+            for a in list(n.args[1:]) + [k.value for k in n.keywords]:
+                for m in ast.walk(a):
+                    if isinstance(m, ast.Attribute) and m.attr in ("DOTALL", "S"):
+                        flags |= re.DOTALL
+    cands = sorted(set(cands))
+    if len(cands) != 1:
+        raise core.EngineGap(f"header pattern not identified in check_header.py ({len(cands)} candidate string constants)")
+    pat = cands[0]
+    if pat.startswith("(?s") :
+        flags |= re.DOTALL
     return pat, flags
 
 
